@@ -25,9 +25,9 @@ def lex(s, fname=''):
         m = TOK.match(s, i)
         if not m:
             raise WowmError('lex error in %s at %r' % (fname, s[i:i + 30]))
-        i = m.end()
         if m.lastgroup:
-            out.append((m.lastgroup, m.group(m.lastgroup)))
+            out.append((m.lastgroup, m.group(m.lastgroup), s.count('\n', 0, m.start()) + 1))
+        i = m.end()
     return out
 
 
@@ -58,7 +58,7 @@ class Parser:
 
     def peek(self, k=0):
         j = self.i + k
-        return self.t[j] if j < len(self.t) else (None, None)
+        return self.t[j] if j < len(self.t) else (None, None, 0)
 
     def eat(self, v=None):
         if self.i >= len(self.t):
@@ -103,6 +103,7 @@ class Parser:
             kw = self.peek()[1]
             if kw is None:
                 break
+            line = self.peek()[2]
             if kw in ('enum', 'flag'):
                 o = self.definer()
             elif kw in CONTAINER_KW:
@@ -112,6 +113,7 @@ class Parser:
             else:
                 raise WowmError('%s: unexpected statement %r' % (self.fname, self.peek()))
             o['docs'] = docs
+            o['line'] = line
             objs.append(o)
         return cmds, objs
 
